@@ -38,7 +38,10 @@ class RadiusVariable(VariableBehavior):
         """
         surface = self._surfaces.surfaces[self.surface_number]
         if np.isinf(self._initial_radius):
+            # the geometry may itself have been edited in place (a flat
+            # asphere, polynomial, ... is not a Plane object)
             surface.geometry = self._initial_geometry
+            surface.geometry.radius = self._initial_radius
         else:
             self.optic.set_radius(self._initial_radius, self.surface_number)
 
